@@ -1,5 +1,6 @@
 import PGT.Model.Sem
 import PGT.Model.Build
+import PGT.Proofs.FloatRT
 /-
 C19 – Scalar and temporal values survive conversion exactly over their whole range.
 `castFrom (castTo x) = x` for every row of the REGENERATED type table (translator T1), on bit vectors:
@@ -110,6 +111,23 @@ theorem C19_field (f : FieldInfo) (k : PrimK)
   refine ⟨c, ?_, y, ?_, he⟩
   · simp [FieldInfo.castTo, hto, hc]
   · simp [FieldInfo.castFrom, hmid, hy]
+
+/-- the float32 row: every finite float32 – and both infinities, both zeros, every subnormal – is widened to
+float64 and narrowed back without any change of its bit pattern (all 2^32 patterns except NaNs).
+Depends on the `bv_decide` axiom of `F.narrow_widen` (declared in the evidence). -/
+theorem C19_float32 (x : BitVec 32) (h : F.isNaN32 x = false) :
+    ∃ c, conv .f32 .f64 (.f32 x) = some c ∧ conv .f64 .f32 c = some (.f32 x) := by
+  refine ⟨.f64 (F.widen64 x), rfl, ?_⟩
+  simp [conv, F.narrow_widen x h]
+
+/-- C19 for a float32 field -/
+theorem C19_field_f32 (f : FieldInfo) (hrep : f.rep = .f32) (hto : repOfGoType f.tf.valueCastToType = some .f64)
+    (x : BitVec 32) (h : F.isNaN32 x = false) :
+    ∃ c, f.castTo (.f32 x) = some c ∧ f.castFrom .float64 c = some (.f32 x) := by
+  obtain ⟨c, hc, hy⟩ := C19_float32 x h
+  refine ⟨c, ?_, ?_⟩
+  · simp [FieldInfo.castTo, hto, hrep, hc]
+  · simp [FieldInfo.castFrom, hrep, PrimK.rep, hy]
 
 /-- non-vacuity: the int32 row and an extreme value -/
 example : ∃ f, infoOf "sint32" false = some f ∧ f.rep = .i32 ∧
